@@ -64,6 +64,13 @@ def run(ctx):
                 bad = 'diagonal tensor is not the C=1 layout'
             elif d.get('sym') != [str(a * R * R + q * R + k) for a in range(T) for q in range(R) for k in range(R)]:
                 bad = 'symmetric tensor is not the R=C=K layout'
+            sh = d.get('@shape', [])
+            if not bad and sh and (sh[:4] != [str(R), str(C), str(T), str(R * C * T)] or (len(sh) > 4 and sh[4:] != [str(R), str(C), str(T)])):
+                bad = 'a %d x %d x %d tensor reports the shape %s (dims(), size(), then the named accessors rows, columns, tubes)' % (R, C, T, sh)
+            elif not bad and d.get('@shape_transposed', [str(R), str(C), str(T)]) != [str(R), str(C), str(T)]:
+                bad = 'the transposed view of a %d x %d x %d tensor reports the shape %s' % (C, R, T, d.get('@shape_transposed'))
+            elif not bad and d.get('@shape_matrix') and (d['@shape_matrix'][:4] != [str(R), str(C), '1', str(R * C)] or (len(d['@shape_matrix']) > 4 and d['@shape_matrix'][4:] != [str(R), str(C), '1'])):
+                bad = 'a %d x %d matrix reports the shape %s' % (R, C, d.get('@shape_matrix'))
             if bad:
                 ctx.violation('layout', bad, {'case': line, 'impl': d})
         for line in waff:
